@@ -408,14 +408,14 @@ theorem stepR_apply_progress {ops : List Op} (hdec : allDecodable ops) {r : Repl
   cases hop : ops[r.applied]? with
   | none =>
     have : ops.length ≤ r.applied := List.getElem?_eq_none_iff.1 hop
-    refine ⟨trivial, ?_⟩
+    refine ⟨by trivial, ?_⟩
     show r.applied = _
     omega
   | some op =>
     have hd : op.decodable = true := hdec op (List.mem_of_getElem? hop)
     have hlt : r.applied < ops.length := (List.getElem?_eq_some_iff.1 hop).1
     simp only [hd, Bool.not_true, Bool.false_eq_true, if_false, h.poison, Bool.false_and]
-    refine ⟨trivial, ?_⟩
+    refine ⟨by trivial, ?_⟩
     show r.applied + 1 = _
     omega
 
